@@ -274,10 +274,58 @@ def r5(ctx, rep):
     rep.check(n >= 3, "cursor-loops", f"expected >= 3 cursor loops in the lexer, found {n}")
 
 
+WRITE_CALL = re.compile(r"\.write\(|\.write_between\(|\.write_inline\(|break_line_within_parenthesis\(|\.write_or_expand\(")
+
+
+def r6(ctx, rep):
+    rep.rule("C12.R6", "recursive writers do not write the same sub-tree twice (attempt, then fallback): time exponential in nesting depth", floor=3)
+    syn = ctx.syn
+    rev = {r["key"]: r for r in load("c12_recursion.json").get("retry_sites", [])}
+    n = 0
+    for f in syn.fns:
+        if f["crate"] != "prqlc" or "body" not in f or "/codegen/" not in f["file"]:
+            continue
+        locs = {}
+        for st in walk(f["body"]):
+            if st.get("k") == "local" and st.get("init") is not None:
+                locs.setdefault(show(st["pat"]), st["init"])
+        import guards
+        par = guards.parents(f["body"])
+        for i in walk(f["body"]):
+            if i.get("k") != "if" or i["c"].get("k") != "let" or "Some" not in show(i["c"]["pat"]):
+                continue
+            src = i["c"]["e"]
+            attempt = show(src, maxdepth=8)
+            if src.get("k") == "path" and src["p"] in locs:
+                attempt = show(locs[src["p"]], maxdepth=8)
+            if not WRITE_CALL.search(attempt):
+                continue
+            # fallback: the else branch, or (when the then-branch returns) the statements that follow the `if`
+            fallback = ""
+            if i.get("e") is not None:
+                fallback = " ; ".join(show(x, maxdepth=8) for x in walk(i["e"]) if x.get("k") in ("call", "mcall"))
+            elif guards._diverges(i["t"]):
+                blk = par.get(id(i))
+                if blk is not None and blk.get("k") == "block":
+                    idx = [j for j, st in enumerate(blk["s"]) if st is i]
+                    rest = blk["s"][idx[0] + 1:] if idx else []
+                    fallback = " ; ".join(show(x, maxdepth=8) for st in rest for x in walk(st) if x.get("k") in ("call", "mcall"))
+            if WRITE_CALL.search(fallback):
+                n += 1
+                key = f"retry:{f['path']}:{attempt[:50]}"
+                if key in rev:
+                    rep.bad(key, rev[key]["reason"], file=f["file"], line=i["l"], fn=f["path"])
+                else:
+                    rep.bad(key, f"`{attempt}` is attempted and, when it does not fit, the same sub-tree is written again by the fallback: each nesting level doubles the work (formatting time exponential in depth)",
+                            file=f["file"], line=i["l"], fn=f["path"])
+    if n == 0:
+        rep.ok("no-retry-sites")
+
+
 def show_stmts_all(node):
     return " ; ".join(show(n, maxdepth=4) for n in walk(node) if n.get("k") in ("mcall", "call"))
 
 
 def run(ctx, rep):
-    for r in (r1, r2, r3, r4, r5):
+    for r in (r1, r2, r3, r4, r5, r6):
         rep.guard(r, ctx)
